@@ -72,6 +72,8 @@ def run_replay(prop_id, path):
         print(f"concrete run raised {type(e).__name__}: {e}")
         return 2
     hit = [o for o in env.obligations if o.label == rp["label"]]
+    if not hit and rp["label"] == "<unexpected-exception>":
+        hit = [o for o in env.obligations if o.value_ok is False][:1]
     if not hit:
         print("obligation not reached")
         return 2
